@@ -195,7 +195,7 @@ def unwrap_obj(shape, fname, y):
     return {'direct': v, 'optional': v, 'list': v[0] if shape == 'list' else None, 'dict': v['k'] if shape == 'dict' else None}[shape]
 
 
-def judge_wrapped(ctx, prefix, engine_word, case, wty, shape, fname, Cls, ty, d, built, src, reqs, pend, op):
+def judge_wrapped(ctx, prefix, engine_word, case, wty, shape, fname, Cls, ty, d, built, src, reqs, pend, op, corr=True):
     """the same document, wrapped, through a further main class: same reference, same clauses"""
     from dataclass_wizard import fromdict
     from dataclass_wizard.errors import MissingFields
@@ -230,6 +230,8 @@ def judge_wrapped(ctx, prefix, engine_word, case, wty, shape, fname, Cls, ty, d,
                 assert isinstance(str(e), str)
             except Exception as ee:            # noqa
                 ctx.fail(prefix + ':message', wcase, f'str(MissingFields) raised {ee!r}', detail=src)
+    if not corr:
+        return                                 # (thorough tier, large power sets: the model is asked about a quarter of the wrapped loads)
     st = model.StdTables()
     st.add_json(wd)
     reqs.append({'op': op, 'ty': model.enc_ty(wty), 'doc': model.enc_j(wd), 'std': st.build()})
@@ -300,7 +302,8 @@ def run_default(ctx: C.Ctx):
                     if tgt >= 0:
                         wty, shape, fname = wraps[tgt]
                         judge_wrapped(ctx, 'absent', '', case, wty, shape, fname, built.get(wty['info']['name']), ty, d, built,
-                                      dict(src=built.source), reqs, pend, 'load')
+                                      dict(src=built.source), reqs, pend, 'load',
+                                      corr=(stride == 1 or k_ % (stride * 4) == 0))
                         continue
                     ctx.seen('absent', case, nontrivial=bool(S))
                     src = dict(src=built.source)
@@ -436,7 +439,8 @@ def run_v1(ctx: C.Ctx):
                     if tgt >= 0:
                         wty, shape, fname = wraps[tgt]
                         judge_wrapped(ctx, 'absent:v1', 'v1 ', case, wty, shape, fname, built.get(wty['info']['name']), ty, d, built,
-                                      dict(src=built.source), reqs, pend, 'loadv1')
+                                      dict(src=built.source), reqs, pend, 'loadv1',
+                                      corr=(stride == 1 or k_ % (stride * 4) == 0))
                         continue
                     ctx.seen('absent:v1', case, nontrivial=bool(S))
                     src = dict(src=built.source)
